@@ -6,6 +6,7 @@ import (
 	"fmt"
 	"os"
 	"path/filepath"
+	"runtime/debug"
 	"sort"
 	"strings"
 	"time"
@@ -57,6 +58,7 @@ func init() {
 }
 
 const (
+	sigSkipRoot  = "defect:skip-on-root-panics"
 	sigD19       = "defect:typeinfo-not-left-on-skip"
 	sigUnkDirArg = "defect:typeinfo-unknown-directive-arg-typed-by-field"
 )
@@ -68,6 +70,7 @@ type runner struct {
 	tree     int
 	pcase    int
 	snap     string
+	snapHash uint64
 	tr       *tree
 }
 
@@ -79,6 +82,7 @@ func repoDir() string {
 }
 
 func run(c *core.Child) {
+	debug.SetGCPercent(800) // small live heap, many short-lived event records
 	x := &runner{c: c, reported: map[string]int{}}
 	for _, m := range modelSchemas {
 		b, err := buildSchema(m)
@@ -246,6 +250,32 @@ func (x *runner) report(m *mismatch, extra map[string]interface{}) {
 	x.c.Violation(m.sig, m.msg, d)
 }
 
+// guard runs a traversal under c.Guard. When the visitor answers skip on
+// enter of the ROOT node the traversal is run under a recover of its own so
+// that the known panic of that case (README, defect 1) gets its precise
+// signature; every other panic goes through c.Guard ("panic:<site>").
+func (x *runner) guard(what map[string]interface{}, f *formSpec, pol *policy, fn func()) (panicked bool) {
+	root := x.tr.root
+	if !(pol.at(root, walk.Enter) == walk.Skip && f.visible(root.GetKind(), walk.Enter)) {
+		return x.c.Guard("panic", what, fn)
+	}
+	defer func() {
+		if r := recover(); r != nil {
+			panicked = true
+			st := string(debug.Stack())
+			site := core.PanicSite(st)
+			m := &mismatch{"panic:" + site, fmt.Sprintf("panic escaped: %v", r), map[string]interface{}{"panic": fmt.Sprint(r), "stack": clip(st, 3000)}}
+			if site == "/language/visitor.Visit" {
+				m.sig = sigSkipRoot
+				m.msg = fmt.Sprintf("skip answered on enter of the root node makes Visit panic instead of ending the traversal: %v", r)
+			}
+			x.report(m, what)
+		}
+	}()
+	fn()
+	return false
+}
+
 func (x *runner) nontrivial(mode string, forms []*formSpec, pols []*policy, typed bool) {
 	any := false
 	var parts []string
@@ -272,20 +302,20 @@ func (x *runner) countActions(p *policy) {
 }
 
 func (x *runner) checkUntouched(what map[string]interface{}) {
-	after := snapshot(x.tr.root)
-	if after == x.snap {
+	if snapshotHash(x.tr.root) == x.snapHash {
 		return
 	}
+	after := snapshot(x.tr.root)
 	i, a, b := firstDiff(x.snap, after)
 	x.report(&mismatch{"mutated-tree", fmt.Sprintf("a traversal that requested no edits changed the AST (dump differs at byte %d)", i),
 		map[string]interface{}{"before": a, "after": b}}, what)
-	x.snap = after
+	x.snap, x.snapHash = after, snapshotHash(x.tr.root)
 }
 
 func (x *runner) runTree(t int, tr *tree) {
 	c := x.c
 	x.tree, x.pcase, x.tr = t, 0, tr
-	x.snap = snapshot(tr.root)
+	x.snap, x.snapHash = snapshot(tr.root), snapshotHash(tr.root)
 	rt := c.RNG(uint64(t), 77)
 	nn := len(tr.nodes)
 
@@ -427,7 +457,7 @@ func (x *runner) checkSeq(f *formSpec, exp []walk.Event, got []obs, seqSig strin
 		x.report(m, what)
 		ok = false
 	}
-	if m := x.tr.laws(got, wo); m != nil {
+	if m := x.tr.laws(got); m != nil {
 		x.report(m, what)
 		ok = false
 	}
@@ -448,7 +478,8 @@ func (x *runner) single(f *formSpec, pol *policy, withDesc bool) {
 	pf := policyFn([]*policy{pol})
 	rec := &recorder{policy: pf}
 	var res interface{}
-	if c.Guard("panic", what, func() { res = visitor.Visit(tr.root, f.options(rec), km) }) {
+	if x.guard(what, f, pol, func() { res = visitor.Visit(tr.root, f.options(rec), km) }) {
+		c.Eval(1)
 		return
 	}
 	c.Eval(1)
@@ -505,7 +536,8 @@ func (x *runner) parallel(forms []*formSpec, pols []*policy) {
 		wo := &walk.Options{Visible: forms[i].visible}
 		exp := walk.Walk(tr.root, pf, i, wo)
 		alone := &recorder{idx: i, policy: pf}
-		if c.Guard("panic", w, func() { visitor.Visit(tr.root, forms[i].options(alone), nil) }) {
+		if x.guard(w, forms[i], pols[i], func() { visitor.Visit(tr.root, forms[i].options(alone), nil) }) {
+			c.Eval(1)
 			continue
 		}
 		c.Eval(1)
@@ -592,7 +624,8 @@ func (x *runner) runTyped(f *formSpec, pol *policy, what map[string]interface{})
 	tr := x.tr
 	ti := graphql.NewTypeInfo(&graphql.TypeInfoConfig{Schema: &tr.sch.schema})
 	rec := &recorder{policy: policyFn([]*policy{pol}), ti: ti, sch: tr.sch}
-	if x.c.Guard("panic", what, func() { visitor.Visit(tr.root, visitor.VisitWithTypeInfo(ti, f.options(rec)), nil) }) {
+	if x.guard(what, f, pol, func() { visitor.Visit(tr.root, visitor.VisitWithTypeInfo(ti, f.options(rec)), nil) }) {
+		x.c.Eval(1)
 		return nil, false
 	}
 	x.c.Eval(1)
